@@ -99,15 +99,20 @@ C33_FailedRunChangesNothing ==
 -----------------------------------------------------------------------------
 (* C34: the wait before the next run after a successful regular run        *)
 (* (history.rs:107-123 and 299-310).  All values in abstract time units.   *)
+Past == 0 - 1     \* an expiry that has passed when the run completes (stale data accepted, or a long run)
 RefreshWait(refresh, minRefresh, expiry) ==
-  \* expiry: time until the data set expires, 0 = no expiry known
+  \* expiry: time until the data set expires, 0 = no expiry known, Past = it already has
   LET nextStart == IF expiry # 0 /\ expiry < refresh THEN expiry ELSE refresh
+      \* history.rs:343-345: a start time that has passed counts as "now"; seeded fault "past_start_waits_refresh":
+      \* it counts as a full refresh interval (the fallback update_wait uses)
+      untilStart == IF nextStart >= 0 THEN nextStart
+                    ELSE IF Variant = "past_start_waits_refresh" THEN refresh ELSE 0
       waitTime  == IF minRefresh = 0 THEN refresh ELSE minRefresh
-  IN  IF nextStart > waitTime THEN nextStart ELSE waitTime
+  IN  IF untilStart > waitTime THEN untilStart ELSE waitTime
 Max(a, b) == IF a > b THEN a ELSE b
 Min(a, b) == IF a < b THEN a ELSE b
 C34_Table ==
-  \A refresh \in Times, minRefresh \in Times \cup {0}, expiry \in Times \cup {0} :
+  \A refresh \in Times, minRefresh \in Times \cup {0}, expiry \in Times \cup {0, Past} :
     LET w == RefreshWait(refresh, minRefresh, expiry)
         lower == IF minRefresh = 0 THEN refresh ELSE minRefresh
         upper == Max(refresh, minRefresh)
@@ -123,7 +128,7 @@ C34_Table ==
 ExpiryUsed(prev, cur, changed) ==
   IF Variant = "keep_unchanged_snapshot" /\ ~changed THEN prev ELSE cur
 C34_LatestRunCounts ==
-  \A refresh \in Times, minRefresh \in Times \cup {0}, prev \in Times \cup {0}, cur \in Times \cup {0},
+  \A refresh \in Times, minRefresh \in Times \cup {0}, prev \in Times \cup {0, Past}, cur \in Times \cup {0, Past},
      changed \in BOOLEAN :
     RefreshWait(refresh, minRefresh, ExpiryUsed(prev, cur, changed)) = RefreshWait(refresh, minRefresh, cur)
 =============================================================================
